@@ -351,8 +351,9 @@ def run(run, ix, tier):
     check_rounding_step(run, ix)
     check_digit_exactness(run, ix)
     # L-R1 (shared with C07): repr at mp.dps > 4300 prints more digits than int() accepts in one piece
-    from .c07 import check_literal_length
+    from .c07 import check_literal_length, check_text_never_through_float
     check_literal_length(run, ix)
+    check_text_never_through_float(run, ix)
     check_numeral_size_hint(run, ix)
 
 
